@@ -43,6 +43,8 @@ def decide(out, obs, n, st):
     for o in vlib.read_ndjson(obs):
         if len(samples) < 4 and o.get("case", 0) % 3001 == 7:
             samples.append({k: o.get(k) for k in ("ins", "l", "r", "mode")} | {"results": [(r.get("status"), r.get("regs"), r.get("log")) for r in o.get("runs", [])]})
+        if o.get("outcome") == "notrun":
+            continue
         if o.get("outcome") in ("hang", "abort", "harness_panic"):
             out.fail("NEW", "worker %s on an instruction" % o.get("outcome"), o)
     out.cov["samples"] = samples
